@@ -13,6 +13,7 @@
 package c15
 
 import (
+	"encoding/json"
 	"fmt"
 	"os"
 	"path/filepath"
@@ -197,7 +198,7 @@ func reshapeClass(before, after []Ent) string {
 // between them.
 func TestPropReshape(t *testing.T) {
 	defer dropBase()
-	hx.Check(t, "reshape", hx.N(120, 1200), func(t *rapid.T) {
+	hx.Check(t, "reshape", hx.N(100, 1200), func(t *rapid.T) {
 		c := &Case{Kind: "raw"}
 		b := rapid.SampledFrom(budgets).Draw(t, "budget")
 		var n0 int
@@ -400,7 +401,13 @@ type Lane struct {
 
 // ConnSpec is one connection. The Treads of its lanes are pipelined: one
 // Tread per lane is sent, then the replies are collected.
+//
+// Clnt: the connection is a go9p client (MountConn with msize CliMsize, +24
+// on the wire) mounted on the server's root; every lane is a goroutine that
+// opens its directory and calls File.Readdir(0) once per pass (the counts of
+// the passes are not used), all lanes of the client at the same moment.
 type ConnSpec struct {
+	Clnt     bool   `json:"clnt,omitempty"`
 	CliDotu  bool   `json:"clidotu"`
 	CliMsize uint32 `json:"climsize"`
 	Lanes    []Lane `json:"lanes"`
@@ -409,14 +416,111 @@ type ConnSpec struct {
 type concLane struct {
 	spec     *Lane
 	fid      uint32
+	path     string // Clnt lanes: path of the directory below the mount point
 	expected []string
 	largest  int
 	stats    []passStats
 }
 
 type concConn struct {
-	s     *rawSess
+	s     *rawSess   // raw connection
+	clnt  *go9p.Clnt // or go9p client
 	lanes []*concLane
+}
+
+// firstErr prefers a violation over infrastructure trouble.
+func firstErr(errs []error) error {
+	var first error
+	for _, e := range errs {
+		if e == nil {
+			continue
+		}
+		if _, ok := e.(*violation); ok {
+			return e
+		}
+		if first == nil {
+			first = e
+		}
+	}
+	return first
+}
+
+// roundClnt: every lane of the client calls Readdir(0) on a newly opened
+// File of its directory, all lanes at the same moment.
+func (cc *concConn) roundClnt(ci, r int) error {
+	errs := make([]error, len(cc.lanes))
+	stats := make([]*passStats, len(cc.lanes))
+	var wg sync.WaitGroup
+	for li, ln := range cc.lanes {
+		if r >= len(ln.spec.Passes) {
+			continue
+		}
+		wg.Add(1)
+		go func(li int, ln *concLane) {
+			defer wg.Done()
+			where := fmt.Sprintf("client connection %d lane %d (directory %d) pass %d", ci, li, ln.spec.Dir, r)
+			stats[li], errs[li] = readdirOnce(cc.clnt, ln, where)
+		}(li, ln)
+	}
+	wg.Wait()
+	for li, ps := range stats {
+		if ps != nil {
+			cc.lanes[li].stats = append(cc.lanes[li].stats, *ps)
+		}
+	}
+	return firstErr(errs)
+}
+
+func readdirOnce(clnt *go9p.Clnt, ln *concLane, where string) (*passStats, error) {
+	f, err := clnt.FOpen(ln.path, go9p.OREAD)
+	if err != nil {
+		return nil, hErr("%s: FOpen: %v", where, err)
+	}
+	defer f.Close()
+	dirs, err := f.Readdir(0)
+	if err != nil {
+		return nil, viol("%s: Readdir(0) of a directory with %d entries (msize %d, dotu=%v): %v", where, len(ln.expected), clnt.Msize, clnt.Dotu, err)
+	}
+	exp := make(map[string]bool, len(ln.expected))
+	for _, n := range ln.expected {
+		exp[n] = true
+	}
+	seen := make(map[string]bool, len(ln.expected))
+	total := 0
+	for _, d := range dirs {
+		if d == nil {
+			return nil, viol("%s: Readdir(0) returned a nil entry", where)
+		}
+		if !exp[d.Name] {
+			return nil, viol("%s: Readdir(0) returned %q which os.ReadDir does not list", where, d.Name)
+		}
+		if seen[d.Name] {
+			return nil, viol("%s: Readdir(0) returned %q twice", where, d.Name)
+		}
+		seen[d.Name] = true
+		total += int(d.Size) + 2
+	}
+	var missing []string
+	for _, n := range ln.expected {
+		if !seen[n] {
+			missing = append(missing, n)
+		}
+	}
+	if len(missing) > 0 {
+		return nil, viol("%s: Readdir(0) (msize %d, dotu=%v) returned %d of %d entries; missing: %s", where, clnt.Msize, clnt.Dotu, len(dirs), len(ln.expected), someNames(missing))
+	}
+	more, err := f.Readdir(0)
+	if err != nil {
+		return nil, viol("%s: Readdir(0) listed all %d entries, a further Readdir(0) on the same File failed: %v", where, len(ln.expected), err)
+	}
+	if len(more) > 0 {
+		return nil, viol("%s: Readdir(0) listed all %d entries, a further Readdir(0) on the same File returned %d more, first %q", where, len(ln.expected), len(more), more[0].Name)
+	}
+	ps := &passStats{records: len(dirs), complete: true, nonEmpty: 1}
+	if total > int(clnt.Msize)-ioHdr {
+		ps.nonEmpty = 2
+	}
+	return ps, nil
 }
 
 // openConc negotiates and opens one fid per lane (each attached to its
@@ -468,6 +572,9 @@ func openConc(u *go9p.Ufs, cs *ConnSpec, anames []string) (*rawSess, []uint32, e
 // round runs pass r of every lane of the connection, the lanes' Treads
 // pipelined.
 func (cc *concConn) round(ci, r int) error {
+	if cc.clnt != nil {
+		return cc.roundClnt(ci, r)
+	}
 	type run struct {
 		ln *concLane
 		l  *lister
@@ -552,6 +659,39 @@ func runConcCase(c *Case, b string) (res result, err error) {
 	}
 }
 
+// The directories of "conc" cases never change; one is built once per process
+// and specification and is removed with the base directory.
+var (
+	concMu   sync.Mutex
+	concDirs = map[string]string{}
+)
+
+func concDir(b string, d *DirSpec) (string, error) {
+	js, err := json.Marshal(d)
+	if err != nil {
+		return "", hErr("%v", err)
+	}
+	key := b + "|" + string(js)
+	concMu.Lock()
+	defer concMu.Unlock()
+	if p := concDirs[key]; p != "" {
+		if _, err := os.Stat(p); err == nil {
+			return p, nil
+		}
+	}
+	dir, err := os.MkdirTemp(b, "c")
+	if err != nil {
+		return "", hErr("%v", err)
+	}
+	for _, e := range d.ents() {
+		if err := mkEnt(dir, e); err != nil {
+			return "", hErr("creating %q: %v", e.Name, err)
+		}
+	}
+	concDirs[key] = dir
+	return dir, nil
+}
+
 func runConc(c *Case, u *go9p.Ufs, b string, res *result) error {
 	if len(c.Dirs) == 0 || len(c.Conns) == 0 {
 		return hErr("conc case without directories or connections")
@@ -560,17 +700,11 @@ func runConc(c *Case, u *go9p.Ufs, b string, res *result) error {
 	expected := make([][]string, len(c.Dirs))
 	ents := make([][]Ent, len(c.Dirs))
 	for i := range c.Dirs {
-		dir, err := os.MkdirTemp(b, "c")
+		dir, err := concDir(b, &c.Dirs[i])
 		if err != nil {
-			return hErr("%v", err)
+			return err
 		}
-		defer os.RemoveAll(dir)
 		ents[i] = c.Dirs[i].ents()
-		for _, e := range ents[i] {
-			if err := mkEnt(dir, e); err != nil {
-				return hErr("creating %q: %v", e.Name, err)
-			}
-		}
 		res.entries += len(ents[i])
 		anames[i] = filepath.Base(dir)
 		if expected[i], err = listNames(dir); err != nil {
@@ -588,6 +722,36 @@ func runConc(c *Case, u *go9p.Ufs, b string, res *result) error {
 			if len(ln.Passes) > rounds {
 				rounds = len(ln.Passes)
 			}
+		}
+		if cs.Clnt {
+			clnt, _, err := ufsrv.Mount(u, "c15cc", "", cs.CliMsize)
+			if err != nil {
+				return hErr("mount: %v", err)
+			}
+			defer clnt.Unmount()
+			k, err := calibrate(clnt.Dotu)
+			if err != nil {
+				return err
+			}
+			cc := &concConn{clnt: clnt}
+			for li := range cs.Lanes {
+				ln := &cs.Lanes[li]
+				cl := &concLane{spec: ln, path: "/" + anames[ln.Dir], expected: expected[ln.Dir]}
+				for _, e := range ents[ln.Dir] {
+					if n := recSize(k, e, clnt.Dotu); n > cl.largest {
+						cl.largest = n
+					}
+				}
+				if int(clnt.Msize)-ioHdr < cl.largest {
+					return hErr("client msize-24=%d is smaller than the largest entry (%d)", clnt.Msize-ioHdr, cl.largest)
+				}
+				cc.lanes = append(cc.lanes, cl)
+			}
+			conns[ci] = cc
+			if ci == 0 {
+				res.dotu, res.msize = clnt.Dotu, clnt.Msize
+			}
+			continue
 		}
 		s, fids, err := openConc(u, cs, anames)
 		if err != nil {
@@ -652,19 +816,7 @@ func runConc(c *Case, u *go9p.Ufs, b string, res *result) error {
 			res.nontrivial = true
 		}
 	}
-	var first error
-	for _, e := range errs {
-		if e == nil {
-			continue
-		}
-		if _, ok := e.(*violation); ok {
-			return e
-		}
-		if first == nil {
-			first = e
-		}
-	}
-	return first
+	return firstErr(errs)
 }
 
 // accountConc is account for "conc" cases.
@@ -677,9 +829,17 @@ func accountConc(test string, c *Case, res result) {
 			two++
 		}
 	}
-	hx.Label(fmt.Sprintf("%s dotu=%v msize%s dirs=%d conns=%d entries=%s", test, res.dotu, msizeClass(res.msize), len(c.Dirs), len(c.Conns), sizeClass(res.entries/len(c.Dirs))))
+	hx.Label(fmt.Sprintf("%s srvdotu=%v entries/dir=%s", test, c.SrvDotu, sizeClass(res.entries/len(c.Dirs))))
+	hx.Label(fmt.Sprintf("%s dirs=%d", test, len(c.Dirs)))
+	hx.Label(fmt.Sprintf("%s conns=%d", test, len(c.Conns)))
 	if two > 0 {
-		hx.Label(test + " several fids pipelined on one connection")
+		hx.Label(test + " several fids at once on one connection")
+	}
+	for _, cs := range c.Conns {
+		if cs.Clnt {
+			hx.Label(test + " go9p client with concurrent Readdir(0)")
+			break
+		}
 	}
 	if res.nontrivial {
 		var seq []interface{}
@@ -688,7 +848,7 @@ func accountConc(test string, c *Case, res result) {
 			seq = append(seq, fmt.Sprint(len(d.Ents), d.Bulk))
 		}
 		for _, cs := range c.Conns {
-			seq = append(seq, cs.CliDotu, cs.CliMsize)
+			seq = append(seq, cs.Clnt, cs.CliDotu, cs.CliMsize)
 			for _, ln := range cs.Lanes {
 				seq = append(seq, ln.Dir)
 				for _, p := range ln.Passes {
@@ -708,13 +868,33 @@ func accountConc(test string, c *Case, res result) {
 	hx.Extra("max_concurrent_lanes", int64(lanes))
 }
 
-// genConc draws a "conc" case: ndirs directories of lo..hi entries.
-func genConc(t *rapid.T, maxDirs, lo, hi, maxConns int) *Case {
+// concPool: the quick tier takes its directories from this fixed pool, so that
+// the cases of one process share the directories on disk.
+var concPool = []Bulk{
+	{N: 1000, Seed: 11, MinLen: 1, MaxLen: 11, Prefix: "A"},
+	{N: 700, Seed: 12, MinLen: 8, MaxLen: 163, Prefix: "B"},
+	{N: 400, Seed: 13, MinLen: 100, MaxLen: 255, Prefix: "C"},
+	{N: 250, Seed: 14, MinLen: 200, MaxLen: 255, Prefix: "D"},
+	{N: 900, Seed: 15, MinLen: 40, MaxLen: 50, Prefix: "E"},
+	{N: 600, Seed: 16, MinLen: 1, MaxLen: 156, Prefix: "F"},
+}
+
+// genConc draws a "conc" case: ndirs directories, from the pool (pool=true)
+// or of lo..hi entries with drawn name lengths.
+func genConc(t *rapid.T, pool bool, maxDirs, lo, hi, maxConns int) *Case {
 	c := &Case{Kind: "conc"}
 	c.SrvDotu = rapid.IntRange(0, 3).Draw(t, "srvplain") != 0
 	c.SrvMsize = rapid.SampledFrom([]uint32{4096, 8192, 65536}).Draw(t, "srvmsize")
 	ndirs := rapid.IntRange(2, maxDirs).Draw(t, "ndirs")
 	for i := 0; i < ndirs; i++ {
+		if pool {
+			bk := concPool[rapid.IntRange(0, len(concPool)-1).Draw(t, "pool")]
+			if !c.SrvDotu && bk.N > 600 {
+				bk.N = 600 // plain 9P2000: user name lookups per entry
+			}
+			c.Dirs = append(c.Dirs, DirSpec{Bulk: &bk})
+			continue
+		}
 		d := DirSpec{Bulk: &Bulk{
 			N:      rapid.IntRange(lo, hi).Draw(t, "n"),
 			Seed:   rapid.Uint64().Draw(t, "seed"),
@@ -749,6 +929,16 @@ func genConc(t *rapid.T, maxDirs, lo, hi, maxConns int) *Case {
 		if rapid.IntRange(0, 2).Draw(t, "twolanes") == 0 {
 			nl = 2
 		}
+		if rapid.IntRange(0, 3).Draw(t, "clnt") == 0 {
+			cs.Clnt = true
+			cs.CliDotu = true
+			dotu = c.SrvDotu
+			k = mustK(t, dotu)
+			nl = rapid.IntRange(2, 4).Draw(t, "clntlanes")
+			if neg = cs.CliMsize + ioHdr; c.SrvMsize < neg {
+				neg = c.SrvMsize
+			}
+		}
 		for li := 0; li < nl; li++ {
 			ln := Lane{Dir: next % ndirs}
 			next++
@@ -759,6 +949,10 @@ func genConc(t *rapid.T, maxDirs, lo, hi, maxConns int) *Case {
 			for r := 0; r < rounds; r++ {
 				p := Pass{}
 				label := fmt.Sprintf("c%dl%dp%d", ci, li, r)
+				if cs.Clnt {
+					ln.Passes = append(ln.Passes, p) // Readdir(0) chooses its own counts
+					continue
+				}
 				if rapid.IntRange(0, 2).Draw(t, label+".big") == 0 {
 					p.Counts = []uint32{neg - ioHdr}
 				} else {
@@ -779,12 +973,12 @@ func genConc(t *rapid.T, maxDirs, lo, hi, maxConns int) *Case {
 // TestPropConc: directories of one server listed at the same moment.
 func TestPropConc(t *testing.T) {
 	defer dropBase()
-	hx.Check(t, "conc", hx.N(10, 16), func(t *rapid.T) {
+	hx.Check(t, "conc", hx.N(12, 16), func(t *rapid.T) {
 		var c *Case
 		if hx.Thorough() {
-			c = genConc(t, 5, 200, 2000, 8)
+			c = genConc(t, false, 5, 200, 2000, 8)
 		} else {
-			c = genConc(t, 4, 150, 1200, 6)
+			c = genConc(t, true, 4, 0, 0, 6)
 		}
 		exec(t, "conc", c)
 	})
